@@ -4,5 +4,6 @@ S=$(cd "$1" && pwd); P=$2; T=${3:-quick}
 git -C /repo apply "$S/patch.diff" || exit 2
 cd /verif && ./check $P --tier $T > /tmp/try_seed.$$.out 2>&1; rc=$?
 git -C /repo checkout -- .
+python3 -c "import sys; sys.path.insert(0,'/verif/lib'); import common as C; C.ensure_gen()"
 grep -c VIOLATION /tmp/try_seed.$$.out | sed "s/^/VIOLATION lines: /"; grep -m3 "VIOLATION\|KNOWN\|BROKEN" /tmp/try_seed.$$.out; echo "rc=$rc"
 rm -f /tmp/try_seed.$$.out
